@@ -99,6 +99,7 @@ type Block struct {
 	Modifies []string
 	Fuel     int
 	PanicsAssumed string
+	AssumeKinds map[string]string // obligation kinds assumed in this unit, with the stated reason
 	LoopInvAll []*Clause // invariants of every loop (rules)
 	IsRule   bool
 	Exclude  map[string]bool
@@ -429,6 +430,12 @@ func parseBlocks(fset *token.FileSet, path string, src []byte, pkgPath string) (
 					return nil, fmt.Errorf("%s:%d: bad fuel", path, line)
 				}
 				cur.Fuel = n
+			case "assume-kind":
+				k, reason := splitWord(rest)
+				if cur.AssumeKinds == nil {
+					cur.AssumeKinds = map[string]string{}
+				}
+				cur.AssumeKinds[k] = reason
 			case "exclude":
 				if cur.Exclude == nil {
 					cur.Exclude = map[string]bool{}
